@@ -73,6 +73,5 @@ def check(tier):
 
 
 def replay(path):
-    from .c03 import replay as r
-
-    return r(path)
+    register_ext()
+    return e1.replay_terminal(PROP, path, [oracles.c05_value])
